@@ -1,4 +1,254 @@
 import ShVerif.Model.C33
 import ShVerif.Proofs.C33
+/-
+  C33 — Indexed arrays behave like a map from indices to values.  Property theorems.
+
+  `Arr`  = the Go representation (`Variable.List`, `Variable.Indexes`; `none` = nil = dense),
+  `Var`  = the fields of `expand.Variable` the array code touches, `applyOp` = one statement,
+  `SMap` = the specification: a finite map Int ⇀ Str as a strictly sorted association list with
+           bash's semantics of every operation (`specOp`), `Arr.abs`/`Var.abs` the abstraction.
+  Helper lemmas: ShVerif/Proofs/C33.lean.
+-/
 namespace ShVerif.C33
+
+/-! ### The specification really is a finite map -/
+
+/-- Sorted association lists are canonical representatives of finite maps. -/
+theorem map_canonical {m₁ m₂ : SMap} (h₁ : m₁.Sorted) (h₂ : m₂.Sorted)
+    (h : ∀ k, m₁.lookup k = m₂.lookup k) : m₁ = m₂ :=
+  SMap.ext h₁ h₂ h
+
+/-- `insert` is map update, and keeps the canonical form. -/
+theorem map_insert (m : SMap) (hs : m.Sorted) (k : Int) (v : Str) :
+    (m.insert k v).Sorted ∧ ∀ j, (m.insert k v).lookup j = if j = k then some v else m.lookup j :=
+  ⟨SMap.insert_sorted hs k v, SMap.lookup_insert m k v⟩
+
+/-- `erase` is map removal, and keeps the canonical form. -/
+theorem map_erase (m : SMap) (hs : m.Sorted) (k : Int) :
+    (m.erase k).Sorted ∧ ∀ j, (m.erase k).lookup j = if j = k then none else m.lookup j :=
+  ⟨SMap.erase_sorted hs k, SMap.lookup_erase hs k⟩
+
+/-- The abstraction of a well-formed representation is a canonical map with non-negative keys. -/
+theorem abs_is_map (a : Arr) (h : a.WF) : a.abs.Sorted ∧ ∀ k ∈ a.abs.keys, 0 ≤ k :=
+  ⟨abs_sorted h, abs_keys_nonneg h⟩
+
+/-! ### internal/sparse.go -/
+
+/-- `SetIndexedElem` with a non-negative index never panics, preserves the representation
+    invariant (indices strictly increasing, non-negative, as many as elements, nil iff dense) and
+    is map update. -/
+theorem abs_set (a : Arr) (h : a.WF) (k : Int) (v : Str) (hk : 0 ≤ k) :
+    ∃ a', setElem a k v = .ok a' ∧ a'.WF ∧ a'.abs = a.abs.insert k v :=
+  setElem_spec h k v hk
+
+/-- `DeleteIndexedElem` (any index, also negative or absent) never panics, preserves the
+    invariant and is map removal. -/
+theorem abs_delete (a : Arr) (h : a.WF) (k : Int) :
+    ∃ a', deleteElem a k = .ok a' ∧ a'.WF ∧ a'.abs = a.abs.erase k :=
+  deleteElem_spec h k
+
+/-- "The index k must not be negative": on a dense array the Go code indexes `list[k]` and
+    panics … -/
+theorem set_negative_dense_panics (list : List Str) (k : Int) (v : Str) (hk : k < 0) :
+    setElem ⟨list, none⟩ k v = .panic := by
+  simp only [setElem]
+  rw [if_pos (by omega), if_pos hk]
+
+/-- … and on a sparse array it silently breaks the invariant (a negative index is stored).
+    `WF_preserved` below shows that no caller in interp/vars.go ever does this. -/
+theorem set_negative_sparse_breaks_invariant (a : Arr) (h : a.WF) (ix : List Int)
+    (e : a.idx = some ix) (k : Int) (v : Str) (hk : k < 0) :
+    ∃ a', setElem a k v = .ok a' ∧ ¬ a'.WF := by
+  have pre := h.pre e
+  cases ix with
+  | nil => exact (wf_idx_ne_nil h e).elim
+  | cons x xs =>
+    have hx : 0 ≤ x := pre.nonneg x (List.mem_cons_self ..)
+    have hlb : lb (x :: xs) k = 0 := by simp only [lb]; rw [if_neg (by omega)]
+    have hf : foundAt (x :: xs) k = false := by
+      simp only [foundAt]; rw [if_neg (by omega)]; simp; omega
+    have hc : canonical (some (k :: x :: xs)) = some (k :: x :: xs) := by
+      simp only [canonical, isIotaFrom]
+      have : (k == 0) = false := by simp; omega
+      simp [this]
+    refine ⟨⟨v :: a.list, some (k :: x :: xs)⟩, ?_, ?_⟩
+    · simp only [setElem, e, sparseSet, search_eq _ _ pre.inc, hlb, hf]
+      simp [insertAt, hc]
+    · intro w
+      have := (w.shape _ rfl).2.2.1 k (List.mem_cons_self ..)
+      omega
+
+/-- `CanonicalIndexes`: nil exactly when the indices are 0, 1, 2, … -/
+theorem canonical_nil_iff_dense (ix : List Int) :
+    canonical (some ix) = none ↔ ix = iotaFrom 0 ix.length := by
+  simp only [canonical]
+  constructor
+  · intro h
+    split at h
+    · next hi => exact eq_iotaFrom_of_isIotaFrom hi
+    · cases h
+  · intro h
+    rw [if_pos (by rw [h]; exact isIotaFrom_iotaFrom ..)]
+
+/-- `IndexedMax` is the largest key, or -1 for the empty array. -/
+theorem max (a : Arr) (h : a.WF) :
+    indexedMax a = a.abs.maxKey ∧
+    (a.abs = [] → a.abs.maxKey = -1) ∧
+    (∀ k ∈ a.abs.keys, k ≤ a.abs.maxKey) ∧
+    (a.abs ≠ [] → a.abs.maxKey ∈ a.abs.keys) :=
+  ⟨indexedMax_spec h, fun e => by rw [e]; rfl, fun _ hk => SMap.le_maxKey (abs_sorted h) hk,
+    fun ne => SMap.maxKey_mem ne⟩
+
+/-! ### expand: `${!a[@]}`, `${#a[@]}`, `${a[i]}`, `${a[@]:o:l}` -/
+
+/-- `indexedKeys` yields exactly the domain of the map, strictly increasing. -/
+theorem keys_sorted_domain (a : Arr) (h : a.WF) :
+    indexedKeys a = .ok a.abs.keys ∧ Increasing a.abs.keys ∧
+    ∀ k, k ∈ a.abs.keys ↔ a.abs.lookup k ≠ none :=
+  ⟨indexedKeys_spec h, (sorted_iff_keys _).mp (abs_sorted h),
+    fun k => (SMap.lookup_isSome_iff_mem_keys a.abs k).symm⟩
+
+/-- The element count is the size of the map. -/
+theorem count (a : Arr) (h : a.WF) :
+    a.list.length = a.abs.length ∧ a.abs.keys.length = a.abs.length :=
+  ⟨count_spec h, by simp [SMap.keys]⟩
+
+/-- `indexedVal` (non-negative index) is map lookup and never panics. -/
+theorem val_spec (a : Arr) (h : a.WF) (i : Int) (hi : 0 ≤ i) :
+    indexedVal a i = .ok (a.abs.lookup i) :=
+  indexedVal_spec h i hi
+
+/-- `${a[i]}` for every `i`: a negative subscript reads index `i + max + 1` (an error when that is
+    still negative); the guard means `indexedVal` is never called with a negative index, so the
+    `v.List[i]` panic is unreachable. -/
+theorem neg_index (a : Arr) (h : a.WF) (i : Int) :
+    elemRead a i = specRead a.abs i ∧ elemRead a i ≠ .panic ∧
+    (i < 0 → 0 ≤ i + (a.abs.maxKey + 1) →
+      elemRead a i = match a.abs.lookup (i + (a.abs.maxKey + 1)) with
+        | some s => .val s
+        | none => .unset) := by
+  have e := elemRead_spec h i
+  refine ⟨e, ?_, ?_⟩
+  · rw [e]
+    simp only [specRead]
+    split
+    · intro c; cases c
+    · split <;> (intro c; cases c)
+  · intro hi hr
+    rw [e]
+    simp only [specRead, resolve, if_pos hi]
+    rw [if_neg (by omega)]
+    cases SMap.lookup a.abs (i + (a.abs.maxKey + 1)) <;> rfl
+
+/-- `${a[@]:off:len}` with an absent or non-negative length: the elements whose index is at least
+    the offset (negative: counted from one past the largest index), the first `len` of them. -/
+theorem slice_spec (a : Arr) (h : a.WF) (offset length : Option Int)
+    (hl : ∀ l, length = some l → 0 ≤ l) :
+    ∃ r, sliceElems a offset length = .ok r ∧ specSlice a.abs offset length = some r :=
+  sliceElems_spec h offset length hl
+
+/-! ### interp/vars.go: every statement, every sequence -/
+
+/-- Every operation, on every well-formed variable, terminates without a Go panic (in
+    particular `SetIndexedElem` is never reached with a negative index) and re-establishes the
+    invariant. -/
+theorem WF_preserved (v : Var) (op : Op) (h : v.WF) : ∃ v', applyOp v op = .ok v' ∧ v'.WF :=
+  let ⟨v', e, w, _⟩ := applyOp_spec v op h
+  ⟨v', e, w⟩
+
+/-- … hence so does every operation sequence from an unset variable. -/
+theorem WF_run (ops : List Op) : ∃ v, runOps Var.zero ops = .ok v ∧ v.WF :=
+  let ⟨v', e, w, _⟩ := runOps_spec ops Var.zero Var.WF.zero_var
+  ⟨v', e, w⟩
+
+/-- One operation outside the recorded divergences is the bash operation on the map. -/
+theorem op_refine (v : Var) (op : Op) (h : v.WF) (ok : opOK v op = true) :
+    ∃ v', applyOp v op = .ok v' ∧ v'.WF ∧ v'.abs = specOp v.abs op :=
+  let ⟨v', e, w, ab⟩ := applyOp_spec v op h
+  ⟨v', e, w, ab ok⟩
+
+/-- The full statement of the property on the model: for EVERY operation sequence, running the
+    code's operations and abstracting = running bash's operations on the map.  It is false of the
+    code as it stands (three counter-examples below), so it is kept as a statement. -/
+def ops_refine_statement : Prop :=
+  ∀ ops : List Op, ∃ v, runOps Var.zero ops = .ok v ∧ v.abs = specRun [] ops
+
+/-- What holds: every sequence that stays outside the three recorded divergences (`runOK`,
+    a decidable condition evaluated along the run) refines the map specification — by induction
+    over the sequence, from any well-formed variable. -/
+theorem ops_refine_partial_from (v : Var) (h : v.WF) (ops : List Op) (ok : runOK v ops = true) :
+    ∃ v', runOps v ops = .ok v' ∧ v'.WF ∧ v'.abs = specRun v.abs ops :=
+  let ⟨v', e, w, ab⟩ := runOps_spec ops v h
+  ⟨v', e, w, ab ok⟩
+
+theorem ops_refine_partial (ops : List Op) (ok : runOK Var.zero ops = true) :
+    ∃ v, runOps Var.zero ops = .ok v ∧ v.WF ∧ v.abs = specRun [] ops :=
+  ops_refine_partial_from Var.zero Var.WF.zero_var ops ok
+
+/-! ### The three divergences (replayed on the Go code and on bash by the harness) -/
+
+def bX : Str := [120]
+def bY : Str := [121]
+def bZ : Str := [122]
+def bQ : Str := [113]
+def bR : Str := [114]
+
+/-- `a=(x y); a[1]+=z`: the code yields `(xz "")`, bash `(x yz)`. -/
+theorem elem_append_counterexample :
+    runOps Var.zero [.assign [.plain bX, .plain bY], .appElem 1 bZ]
+      = .ok ⟨.indexed, true, [], ⟨[bX ++ bZ, []], none⟩⟩ ∧
+    specRun [] [.assign [.plain bX, .plain bY], .appElem 1 bZ] = [(0, bX), (1, bY ++ bZ)] := by
+  decide
+
+/-- `a=(x y [-5]=q r)`: the code stops at the bad subscript, bash skips it: `(x y)` vs `(x y r)`. -/
+theorem literal_bad_subscript_counterexample :
+    runOps Var.zero [.assign [.plain bX, .plain bY, .at (-5) bQ, .plain bR]]
+      = .ok ⟨.indexed, true, [], ⟨[bX, bY], none⟩⟩ ∧
+    specRun [] [.assign [.plain bX, .plain bY, .at (-5) bQ, .plain bR]]
+      = [(0, bX), (1, bY), (2, bR)] := by
+  decide
+
+/-- `a[0]=x; unset a`: the array is not `IsSet()`, `unset` leaves it alone; bash unsets it. -/
+theorem unset_after_elem_assign_counterexample :
+    runOps Var.zero [.setElem 0 bX, .unsetAll] = .ok ⟨.indexed, false, [], ⟨[bX], none⟩⟩ ∧
+    specRun [] [.setElem 0 bX, .unsetAll] = [] := by
+  decide
+
+theorem ops_refine_statement_false : ¬ ops_refine_statement := by
+  intro h
+  obtain ⟨v, e, ab⟩ := h [.setElem 0 bX, .unsetAll]
+  rw [unset_after_elem_assign_counterexample.1] at e
+  cases e
+  rw [unset_after_elem_assign_counterexample.2] at ab
+  cases ab
+
+/-! ### Non-vacuity -/
+
+/-- A run through dense → sparse → dense representations with negative subscripts, an explicit
+    `[i]=` resetting the counter, `+=`, and unsets, satisfying the hypothesis of
+    `ops_refine_partial`. -/
+def demoOps : List Op :=
+  [.assign [.plain bX, .at 5 bY, .plain bZ],   -- a=(x [5]=y z)        {0:x 5:y 6:z}
+   .setElem (-1) bQ,                           -- a[-1]=q              {0:x 5:y 6:q}
+   .append [.plain bR, .at (-8) bZ],           -- a+=(r [-8]=z)        {0:z 5:y 6:q 7:r}
+   .unsetElem (-2),                            -- unset 'a[-2]'        {0:z 5:y 7:r}
+   .appStr bX,                                 -- a+=x                 {0:zx 5:y 7:r}
+   .unsetElem 5, .unsetElem 7,                 -- back to dense        {0:zx}
+   .setStr bY, .setElem 1 bQ]                  -- a=y; a[1]=q          {0:y 1:q}
+
+example : runOK Var.zero demoOps = true := by decide
+example : runOps Var.zero demoOps = .ok ⟨.indexed, true, [], ⟨[bY, bQ], none⟩⟩ := by decide
+example : specRun [] demoOps = [(0, bY), (1, bQ)] := by decide
+example : runOps Var.zero (demoOps.take 4)
+    = .ok ⟨.indexed, true, [], ⟨[bZ, bY, bR], some [0, 5, 7]⟩⟩ := by decide
+/-- A scalar becomes a one-element array: `s=x; s+=(y)`. -/
+example : runOps Var.zero [.setStr bX, .append [.plain bY]]
+    = .ok ⟨.indexed, true, bX, ⟨[bX, bY], none⟩⟩ := by decide
+/-- Sparse slicing: `a=([2]=x [5]=y [9]=z); ${a[@]: -5:2}` = elements from index 5: `y z`. -/
+example : sliceElems ⟨[bX, bY, bZ], some [2, 5, 9]⟩ (some (-5)) (some 2) = .ok [bY, bZ] := by decide
+example : specSlice [(2, bX), (5, bY), (9, bZ)] (some (-5)) (some 2) = some [bY, bZ] := by decide
+/-- A well-formed sparse representation exists (the hypotheses `a.WF` are satisfiable). -/
+example : (Arr.mk [bX, bY] (some [2, 5])).WF :=
+  ⟨fun ix e => by cases e; exact ⟨rfl, by unfold Increasing; decide, by decide, by decide⟩⟩
+
 end ShVerif.C33
